@@ -364,6 +364,42 @@ _SAFE = {"len": len, "ord": ord, "bytes": bytes, "int": int, "min": min, "max": 
 _IS_GEN: Dict[int, bool] = {}      # id(FunctionDef) -> contains a yield (the trees live as long as the run)
 
 
+class Oracle:
+    """fixes the value of conditions the model cannot evaluate, one assignment per run"""
+    def __init__(self, assignment=None):
+        self.assignment = dict(assignment or {})
+        self.opened = []          # conditions first met in this run (given True)
+        self.why = {}
+
+    def decide(self, key, why=""):
+        if key not in self.assignment:
+            self.assignment[key] = True
+            self.opened.append(key)
+            self.why[key] = why
+        return self.assignment[key]
+
+
+def explore_unknowns(run, limit=8):
+    """run(oracle) -> result for every assignment of the unknown conditions met (depth-first, at most ``limit`` runs): [(assignment, result)]"""
+    out, pending, seen = [], [{}], set()
+    while pending and len(out) < limit:
+        a = pending.pop()
+        o = Oracle(a)
+        r = run(o)
+        key = tuple(sorted(o.assignment.items()))
+        if key in seen:
+            continue
+        seen.add(key)
+        out.append((dict(o.assignment), r))
+        for i, k in enumerate(o.opened):
+            alt = dict(a)
+            for k2 in o.opened[:i]:
+                alt[k2] = True
+            alt[k] = False
+            pending.append(alt)
+    return out
+
+
 class SelfRef:
     """the value of the name ``self`` inside the model"""
     def __repr__(self):
@@ -434,6 +470,18 @@ class MiniInterp:
             # interleaving of the generator's own steps with its consumer's is not modelled
             return iter(self._yielded)
         return None
+
+    def test(self, e):
+        """value of a condition.  When the model cannot evaluate it (an attribute chain / call outside the modelled state, e.g. a negotiated option) and
+        the run was started with an oracle (consts["__oracle__"]), the condition is UNKNOWN: the oracle fixes it for this run - the same text always gets
+        the same value - and the driver explores the other value in another run.  Without an oracle the AnalysisError stands."""
+        oracle = self.consts.get("__oracle__")
+        if oracle is None or isinstance(e, ast.BoolOp):
+            return self.ev(e)
+        try:
+            return self.ev(e)
+        except AnalysisError as ex:
+            return oracle.decide(src(e), str(ex))
 
     # values that stand for callables of the modelled class
     def class_attr(self, name):
@@ -515,7 +563,7 @@ class MiniInterp:
         if isinstance(n, ast.BoolOp):
             v = None
             for e in n.values:
-                v = self.ev(e)
+                v = self.test(e)
                 if isinstance(n.op, ast.And) and not v:
                     return v
                 if isinstance(n.op, ast.Or) and v:
@@ -546,7 +594,7 @@ class MiniInterp:
                 left = right
             return True
         if isinstance(n, ast.IfExp):
-            return self.ev(n.body) if self.ev(n.test) else self.ev(n.orelse)
+            return self.ev(n.body) if self.test(n.test) else self.ev(n.orelse)
         if isinstance(n, (ast.ListComp, ast.GeneratorExp)) and len(n.generators) == 1 and not n.generators[0].is_async:
             if isinstance(n, ast.GeneratorExp):
                 return self._lazy(n)            # consumed lazily by any()/all()/join()...: one-shot iterables behave as at run time
@@ -688,7 +736,7 @@ class MiniInterp:
         elif isinstance(st, ast.AugAssign):
             self._assign(st.target, self.ev(ast.BinOp(left=_load(st.target), op=st.op, right=st.value)))
         elif isinstance(st, ast.If):
-            self._block(st.body if self.ev(st.test) else st.orelse)
+            self._block(st.body if self.test(st.test) else st.orelse)
         elif isinstance(st, ast.For):
             n = 0
             broke = False
